@@ -65,6 +65,23 @@ def special_pulse(rng, kind):
         return dict(d=2, c_opers=np.array([H]), c_ids=['C0'], c_coeffs=c,
                     n_opers=np.array([gens.rand_herm(rng, 2, True)]), n_ids=['N0'],
                     n_coeffs=np.ones((1, 2)), dt=dt, basis=('pauli',), features=['identity_prop'])
+    if kind == 'near_identity':
+        # a full rotation that is slightly over-rotated (one or two qubits): the total propagator is the
+        # identity up to an angle eps, which many repetitions make visible
+        eps = float(rng.choice([1e-6, 1e-4, 5e-4, 3e-3]))
+        dt = np.array([0.6, 0.4])
+        if rng.random() < 0.7:
+            I2 = np.eye(2)
+            H = np.kron(X, I2)/2
+            nops = np.array([np.kron(Z, I2), np.kron(Z, Z)])
+            d, basis = 4, ('pauli',)
+        else:
+            H = X/2
+            nops = np.array([Z/2, Y/2])
+            d, basis = 2, ('pauli',)
+        c = np.array([[2*np.pi*(1 + eps)/dt.sum()]*2])
+        return dict(d=d, c_opers=np.array([H]), c_ids=['C0'], c_coeffs=c, n_opers=nops, n_ids=['N0', 'N1'],
+                    n_coeffs=np.ones((2, 2)), dt=dt, basis=basis, features=['near_identity_prop'])
     if kind == 'pi':
         dt = np.array([1.0])
         return dict(d=2, c_opers=np.array([X/2]), c_ids=['C0'], c_coeffs=np.array([[np.pi]]),
@@ -229,10 +246,14 @@ def search(ctx, deep=False):
     n = {('quick', False): 25, ('quick', True): 150, ('thorough', False): 600,
          ('thorough', True): 1500}[(ctx.tier, deep)]
     for i in range(n):
-        desc = special_pulse(rng, str(rng.choice(['identity', 'pi', 'idle', 'rand', 'rand', 'rand'])))
+        desc = special_pulse(rng, str(rng.choice(['identity', 'pi', 'idle', 'rand', 'rand', 'rand',
+                                                  'near_identity'])))
         p = gens.build(desc)
         om = singular_omegas(rng, p)
         G = int(rng.choice([1, 2, 3, 5, 12, 30]))
+        if 'near_identity_prop' in desc['features']:
+            G = int(rng.choice([40, 120])) if ctx.tier == 'quick' else int(rng.choice([40, 150, 400]))
+            om = om[:6]
         check_periodic(ctx, {'desc': desc, 'G': G, 'omega': om})
         if i < 2:
             ctx.sample({'features': desc['features'], 'G': G, 'omega_head': om[:4]})
